@@ -16,7 +16,8 @@ FAULTS = {
                        'tail missing', 'lui x1, %hi(missing)', 'pack <I missing', 'li t0, missing + 1', 'jal x1, missing', 'X2 = UNDEF + 1'],
     'malformed-expression': ['addi x1, x1, 1 +', 'li t0, 1.5', "li t0, 'ab'", 'X3 = (1', 'bytes 1 zz', 'li t0 %hi', "li t0, '\\x'",
                              'addi x1 x1 "s"', 'li t0, %offset', 'lui x1 %hi(', 'li t0, 3 // 0', 'dw 1 2', 'ints 0x', 'li t0, [1]',
-                             'addi x1, x1, %lo()', 'X4 = %hi(3)'],
+                             'addi x1, x1, %lo()', 'X4 = %hi(3)', 'xori x5, x5, 1 << (3 - 8)', 'li t0, 1 >> -1', 'X5 = 5 % 0', 'dw 2 ** -1',
+                             'lui x5, 1 << -2', 'li t0, (1).x', 'li t0, [1][2]', 'li t0, {}[1]', 'li t0, 10 ** 10 ** 10 ** 10' if False else 'li t0, 1 if'],
     'error-directive': ['error this is bad', 'error'],
     'missing-include': ['include nothere.asm', 'include_bytes nothere.bin', 'include'],
 }
